@@ -439,3 +439,7 @@ def run(prog, rep, tier, snap):
     rep.rule("R16.7", "the COUNT the reader stores is the COUNT that was written (no narrowing on the way into the rule)", 12)
     rep.call(encodings.r05_4c, prog, rep, "R16.7")
 READY = True
+
+# texts brought up to date with the rules added in the last rounds
+LEVEL_TEXT = LEVEL_TEXT + ' Also: candidate sets read through local constant tables are evaluated; the seed of the next batch is set aside before conversion and sort; echs_instant_add(), through which every zoned occurrence is converted, agrees with the calendar.'
+
